@@ -4,7 +4,7 @@ import cybuild
 
 TITLE = "Comparisons and membership tests match CPython"
 EXTRACTS = ["Cmp", "CmpInt", "CmpFloat"]
-RULE = ("four generators. (1) cascades of 1-4 comparison links whose operands are logging calls (Python "
+RULE = ("five generators. (1) cascades of 1-4 comparison links whose operands are logging calls (Python "
         "objects, C int / C double calls, instrumented objects whose rich comparisons return objects with a "
         "logging/raising __bool__) over all ten comparison operators; (2) `in`/`not in` tests against tuple/"
         "list/set displays of 0-4 members (logging calls, names, attributes, literals, starred, unhashable) "
@@ -20,7 +20,15 @@ RULE = ("four generators. (1) cascades of 1-4 comparison links whose operands ar
         "pairs table of boundary values (2^30, 2^60, 2^63, 2^64 +-1 ...), each pair run through all six "
         "operators x {object result, C truth result} x operand typings {object, int}^2, plus 3-operand chains "
         "and `in`/`not in` 2-tuples, in two builds (PyLong internals on / off). Distinct by (source text of the "
-        "function, input); non-trivial = at least one comparison is executed")
+        "function, input); non-trivial = at least one comparison is executed. (5) PyObjectCompare on an exact float "
+        "and an exact int, both orders, plus float-float, in the same two builds; pairs by class: int sign x digit count "
+        "0,1,2,3,4+ (min / max / random digits) against floats on both sides of every branch constant of the helper (0, "
+        "+-2^30 = one digit, +-2^53 = exact-double range and the non-internals clamp, +-2^63 / 2^64 = long, 1e30, DBL_MAX, "
+        "5e-324, +-inf, nan, +-0.0), boundary floats x boundary ints (2^e +- 0,1,2 and the neighbouring doubles, e in "
+        "29..1024), every int against float(int) and its two neighbouring doubles, every float against int(float) +- 1, "
+        "random pairs of nearby magnitude; six operators x typings (object/object, float/int, float/object, object/int, "
+        "int/float, int/object, object/float) x {expression, if-statement}; three-way: compiled helper / extracted model of "
+        "the build's variant / exact integer cross-multiplication (CPython's own operators must agree with the latter)")
 EXPLANATION = ("theorems: the temp-machine code emitted for e0 op1 e1 ... opn en equals the Python reference "
                "(value, exception and full event trace: operand evaluations, comparison calls, truth tests) for "
                "ALL cascades; FlattenInListTransform output evaluates like CPython's membership test for all "
@@ -32,8 +40,13 @@ EXPLANATION = ("theorems: the temp-machine code emitted for e0 op1 e1 ... opn en
                "__Pyx_PyLong_CompareSignAndSize, the identity shortcut): for ALL operators, ALL pairs of well-formed "
                "CPython ints of any digit count and every configuration with cfg_ok the model of the C text returns "
                "the comparison of the values without signed overflow (by induction on the digit index), tied to the "
-               "compiled helper on the enumerated pairs and to memory by reading lv_tag/ob_digit. partial: the other "
-               "object comparison helpers (int-float, str, bytes, UnicodeEquals, UnicodeEqualsUCS4, dict/set/str "
+               "compiled helper on the enumerated pairs and to memory by reading lv_tag/ob_digit. "
+               "__Pyx_PyObject_CompareFloatInt<Op> / CompareIntFloat<Op>: for EVERY double (nan, infinities, every finite "
+               "dyadic rational), EVERY well-formed int and all six operators the model of the C text returns the exact order "
+               "of the two values (= Qcompare of the rationals), with CYTHON_USE_PYLONG_INTERNALS on and off (LP64) and never "
+               "converts an int to double inexactly; hence the variants agree. Refuted for a 32-bit long without internals "
+               "(2.0**45 < 2**40 is True there: model only, not reproducible on this LP64 machine). partial: the other "
+               "object comparison helpers (str, bytes, UnicodeEquals, UnicodeEqualsUCS4, dict/set/str "
                "containment) and C/Python coercions are differential only (compiled module vs CPython); user-defined __eq__ inside flattened `in` "
                "tests (operand orientation) is outside the model.")
 TRUSTED = ["CPython 3.12 executing the same (or the de-typed) source text as the property oracle",
@@ -42,7 +55,10 @@ TRUSTED = ["CPython 3.12 executing the same (or the de-typed) source text as the
            "gcc as a conforming C compiler; a C switch with pairwise distinct labels jumps to the unique match",
            "tree dumps taken by a pipeline hook after FlattenInListTransform / SwitchTransform (pyload sources)",
            "CPython's own int comparison (long_richcompare) on the same values as the oracle of the int-int helper; "
-           "PyLong_AsLongLongAndOverflow and PyObject_RichCompare are modelled by their documented contract"]
+           "PyLong_AsLongLongAndOverflow and PyObject_RichCompare are modelled by their documented contract",
+           "float-int helpers: PyFloat_AS_DOUBLE / PyFloat_AsDouble of an exact float cannot fail (the !CYTHON_ASSUME_SAFE_MACROS "
+           "error exit is not modelled); PyLong_AsLongAndOverflow and the final PyObject_RichCompare(float, int) by contract "
+           "(CPython's float_richcompare is exact); C double comparisons are IEEE comparisons of the represented rationals"]
 ASSUMPTIONS = ["flattened `in` tests compare built-in values: == is total, symmetric and reflexive on identical "
                "objects (NaN excluded: finding), comparisons have no side effects",
                "switch subjects are side-effect free C integers or evaluated once"]
